@@ -32,7 +32,7 @@ RULE = ("histories: ALL sequences over the event alphabet {write S (add/edit/rep
         "file defines, every write carries fresh definitions), break (bad JSON / unknown operation, section, "
         "permission, object type), remove, touch} x 3 files x 3 overlapping names: 21 letters to depth 4 and 10 "
         "letters to depth 5 with a scan after every event, 15 letters to depth 2 with two events per scan, 8 letters "
-        "including documents that crash the parser to depth 4 (thorough: 21 letters to depth 5, 10 letters to depth 6, "
+        "including wrong-typed documents (the former F-C18-b inputs) to depth 4 (thorough: 21 letters to depth 5, 10 letters to depth 6, "
         "two events per scan over 21 letters to depth 2 and over 10 letters to depth 3, crash alphabet to depth 5), then seeded random histories (4 files, reserved names, documents that crash "
         "the parser, 1-3 events per scan, 6-12 scans); no-op events (remove/touch of an absent file) are pruned. "
         "documents: every documented shape (preset, groups, both, object types at top level, several policies, empty "
@@ -869,7 +869,7 @@ def plan(ctx, with_model=True, more=1):
     if not quick:
         tasks += family_tasks("two events per scan, depth 2, 21 letters", "full", 2, 2, 128, with_model)
         tasks += family_tasks("two events per scan, depth 3, 10 letters", "deep", 2, 3, 100, with_model)
-    tasks += family_tasks("with documents that crash the parser, depth %d, 8 letters" % (4 if quick else 5), "crash", 1,
+    tasks += family_tasks("with wrong-typed documents (former F-C18-b), depth %d, 8 letters" % (4 if quick else 5), "crash", 1,
                           4 if quick else 5, 16 if quick else 64, with_model)
     nrand = (2400 if quick else 120000) * more
     per = 150 if quick else 1000
